@@ -251,30 +251,29 @@ def mergeOne (m : Merger) (evs : List Event) : Except Err (Option Merged) :=
 
 /-! ### `mergeEvents` -/
 
-/-- first merger (list order) whose `filter` accepts the tag -/
-def firstMatch (ms : List Merger) (tag : Nat) : Option Nat :=
-  match ms with
-  | [] => none
-  | m :: rest => if m.tag = tag then some 0 else (firstMatch rest tag).map (· + 1)
-
 def bypass (t : Table) (e : Event) : Bool := e.typ = t.typeChain || e.tag = t.tagUniqueAddress
 
-/-- events that go to `others` (kept as they are, original order) -/
+/-- the event is offered to the mergers' `filter`s (Stats type, not bypassed) -/
+def routed (t : Table) (e : Event) : Bool := !bypass t e && e.typ = t.typeStats
+
+/-- events that go to `others` (kept as they are, original order): bypassed ones, and routed ones no merger accepts -/
 def isOther (t : Table) (e : Event) : Bool :=
-  bypass t e || (e.typ = t.typeStats && (firstMatch t.mergers e.tag).isNone)
+  bypass t e || (e.typ = t.typeStats && !(t.mergers.any (·.tag = e.tag)))
 
-/-- events collected by merger number `i` -/
-def bucket (t : Table) (i : Nat) (evs : List Event) : List Event :=
-  evs.filter fun e => !bypass t e && e.typ = t.typeStats && firstMatch t.mergers e.tag = some i
+/-- events collected by a merger for `tag`: `filter` is tried in list order and the first match wins, so a
+merger whose tag an earlier merger already claimed collects nothing. -/
+def bucket (t : Table) (claimed : List Nat) (tag : Nat) (evs : List Event) : List Event :=
+  if claimed.contains tag then [] else evs.filter fun e => routed t e && e.tag = tag
 
-def mergeAll (t : Table) (evs : List Event) (ms : List Merger) (i : Nat) : Except Err (List Merged) :=
+/-- the second loop of `mergeEvents`: `em.merge` for every merger in list order; the first error aborts. -/
+def mergeAll (t : Table) (evs : List Event) (ms : List Merger) (claimed : List Nat) : Except Err (List Merged) :=
   match ms with
   | [] => .ok []
   | m :: rest =>
-    match mergeOne m (bucket t i evs) with
+    match mergeOne m (bucket t claimed m.tag evs) with
     | .error x => .error x
     | .ok r =>
-      match mergeAll t evs rest (i + 1) with
+      match mergeAll t evs rest (m.tag :: claimed) with
       | .error x => .error x
       | .ok rs => .ok (match r with | none => rs | some x => x :: rs)
 
@@ -284,7 +283,7 @@ structure Result where
 deriving DecidableEq, Repr
 
 def mergeEvents (t : Table) (evs : List Event) : Except Err Result :=
-  match mergeAll t evs t.mergers 0 with
+  match mergeAll t evs t.mergers [] with
   | .error x => .error x
   | .ok ms => .ok ⟨ms, evs.filter (isOther t)⟩
 
@@ -294,7 +293,7 @@ def delivered (r : Result) (tag : Nat) : List Item :=
 
 /-- payloads emitted under `tag` that are routed to a merger (Stats type, not bypassed), in emission order -/
 def emitted (t : Table) (evs : List Event) (tag : Nat) : List Item :=
-  (evs.filter fun e => !bypass t e && e.typ = t.typeStats && e.tag = tag).flatMap (·.items)
+  (evs.filter fun e => routed t e && e.tag = tag).flatMap (·.items)
 
 /-! ### handlers (row selection) -/
 
@@ -339,5 +338,9 @@ def authMint (data : List Item) : List (String × Nat) :=
 def bridgeMintRows (t : Table) (data : List Item) : List (String × Nat) × List (String × Nat) :=
   (data.map fun it => (strField it "UserID", numField it "MintNonce"),
    (authMint data).map fun (auth, amt) => ((if t.mintIdField = t.mintSetField then auth else ""), amt))
+
+/-- gorm's `Create(&users)` refuses an empty slice ("empty slice found"), so a merged mint event without
+payloads makes the handler fail before the totals are touched. -/
+def bridgeMintFails (data : List Item) : Bool := data.isEmpty
 
 end ZChain.Events
